@@ -69,9 +69,32 @@ def grid_pairs(r, tier):
             out.append((name, u(lhs), u(rhs), False))
     return out
 
+def head_grid_pairs(r, tier):
+    """every head-admissible law, instantiated with every shape of operand a head formula may have (atom, conjunction, disjunction,
+    negation, next, sequence), written directly as the head formula and below `>` and `|`"""
+    A, B, Cc = ("a", "a"), ("a", "b"), ("a", "c")
+    P = [A, ("b", "and", A, B), ("b", "or", A, B), ("~", A), ("next", 1, False, A), ("seqn", False, A, B), ("seqn", True, A, B),
+         ("b", "and", A, ("b", "or", B, Cc))]
+    Q = [B, ("b", "and", B, Cc), ("b", "or", ("~", B), Cc)]
+    ctxs = [lambda f: f, lambda f: ("next", 1, False, f), lambda f: ("b", "or", f, Cc), lambda f: ("alF", f)]
+    out = []
+    for p in P:
+        for q in Q:
+            for name, lhs, rhs, head in laws(p, q):
+                if head:
+                    for cx in ctxs:
+                        out.append((name, cx(lhs), cx(rhs), True))
+    # the same pair arises for several q when the law does not mention q
+    seen, uniq = set(), []
+    for x in out:
+        k = (x[0], repr(x[1]), repr(x[2]))
+        if k not in seen:
+            seen.add(k); uniq.append(x)
+    return uniq if tier != "quick" else r.sample(uniq, min(len(uniq), 160))
+
 def gen_pairs(seed, n, tier):
     r = random.Random(seed)
-    out = grid_pairs(r, tier)
+    out = grid_pairs(r, tier) + head_grid_pairs(r, tier)
     for i in range(n):
         p = gen.gen_sform(r, r.randint(0, 1), ATOMS)
         q = gen.gen_sform(r, r.randint(0, 1), ATOMS)
